@@ -45,6 +45,10 @@ def programs(rng, quick):
         if len(p["spawners"]) <= 2 and p["tasks_per"] == 2:
             e = dict(p, raising=[2, 11], get_after={1: None, 2: None})
             extra.append(e)
+            # ... while the STATUS handler asks the pool for its number of active tasks at any moment (gateway.remote_status())
+            extra.append(dict(p, status_polls=4))
+            # ... a task that ends by KeyboardInterrupt (not an Exception): completion is recorded all the same, get() re-raises it
+            extra.append(dict(p, raising=[1, 2], raising_base=[1, 2], get_after={1: None, 2: None}))
             if not (p["mto"] and p["hasprimary"]):
                 extra.append(dict(p, gated_tasks=[1], get_after={1: 1.0}))
                 if len(p["spawners"]) == 1:  # the boundary: get(timeout=0) on a task that is still running times out at once
